@@ -4,6 +4,7 @@ import (
 	"encoding/json"
 	"errors"
 	"fmt"
+	"math"
 	"reflect"
 	"strings"
 
@@ -13,7 +14,7 @@ import (
 )
 
 // keys whose values survive a JSON round trip (no duplicate names among them)
-var c09Keys = []int{0, 2, 15, 24, 14, 22, 26}
+var c09Keys = []int{0, 2, 15, 24, 14, 22, 26, 13, 4, 12, 21, 23, 16, 7}
 
 const keyLogLevel = 40
 const keyHTTPStatus = 41
@@ -68,6 +69,8 @@ func init() {
 					d.Prog[0].Opts = append(d.Prog[0].Opts, POpt{T: "field", Key: keyHTTPStatus, Val: 3})
 				case 2: // K3
 					d.Default, d.Strict = true, false
+				case 4: // K9: a float32 field holding +-MaxFloat32
+					d.Prog[0].Opts = append(d.Prog[0].Opts, POpt{T: "field", Key: 13, Val: maxF32Value(r.Bool())})
 				case 3: // K4: a foreign cause with an empty message
 					d.Prog = append(d.Prog, PStmt{T: "leaf", Msg: "", Ty: "leaf"}, PStmt{T: "wrap", F: 0, C: ip(len(errStmts(d.Prog)))})
 				}
@@ -83,6 +86,16 @@ func init() {
 			return []Case{runC09(d)}, nil
 		},
 	})
+}
+
+// maxF32Value: pool index of float32(+-MaxFloat32)
+func maxF32Value(neg bool) int {
+	for i, v := range valuePool() {
+		if f, ok := v.V.(float32); ok && ((neg && f == -math.MaxFloat32) || (!neg && f == math.MaxFloat32)) {
+			return i
+		}
+	}
+	panic("no MaxFloat32 in the value pool")
 }
 
 // errStmts counts the statements that add to the error pool.
@@ -340,6 +353,13 @@ func runC09(d c09Desc) Case {
 	}
 	if d.Default {
 		tags = append(tags, "default-resolver-kindless-cause")
+	}
+	for _, s := range d.Prog {
+		for _, o := range s.Opts {
+			if o.T == "field" && o.Key == 13 && (o.Val == maxF32Value(true) || o.Val == maxF32Value(false)) {
+				tags = append(tags, "float32-maxfloat32-roundtrip")
+			}
+		}
 	}
 	coq := fmt.Sprintf("{| c_prog := %s; c_cfg := %s; c_vtab := %s; c_obs := %s |}", w.coqProg(), cfgCoq, cList(vt), cList(obs))
 	o := fmt.Sprintf("%d round trips", len(obs))
